@@ -27,6 +27,26 @@ type ScopeWS struct {
 	Roots      []string           // workspace folders (sibling directories under the scratch root; the first is the main folder); nil = one folder
 }
 
+// AddFile appends a further (valid) file to the workspace.
+func (ws *ScopeWS) AddFile(rel, txt string) {
+	pr := RParse([]byte(txt))
+	if !pr.Valid() {
+		panic("harness: AddFile with an invalid program: " + txt)
+	}
+	f := &SFile{Rel: rel, Text: txt, Src: []byte(txt), Parse: pr, Bind: RBind(pr)}
+	ws.Files = append(ws.Files, f)
+	ws.ByRel[rel] = f
+	ws.index()
+}
+
+// AddFileNamedLikeAGlobal adds a small module whose base name equals the name of a global the workspace uses (with the
+// default options the name of a file has no bearing on the analysis of a variable of that name).
+func (ws *ScopeWS) AddFileNamedLikeAGlobal(r *Rng) string {
+	n := r.Pick([]string{"GAlpha", "GBeta", "GGamma", "GFunc", "GInner", "GNever1", "GNever2", "GMulti1"})
+	ws.AddFile("lib/"+n+".lua", "local filler = 1\nreturn filler\n")
+	return n
+}
+
 // Reroot spreads the files over several workspace folders that lie next to each other (none inside another).
 func (ws *ScopeWS) Reroot(roots []string) {
 	ws.Roots = roots
